@@ -300,6 +300,10 @@ def read_cgsmiles(pattern):
                 # the outermost loop goes over how often a the branch has to be
                 # added to the existing sequence
                 base_anchor = prev_node
+                # only the branch that is expanded and the branches nested in
+                # it are repeated; recipes of branches that were closed before
+                # the anchor of this branch have smaller node keys
+                unit_recipes = [item for item in recipes.items() if item[0] >= prev_node]
                 for idx in range(0,int(pattern[eon_a+2:eon_b])-1):
                     # each copy is attached to the anchor of the previous copy
                     prev_node = base_anchor
@@ -307,7 +311,7 @@ def read_cgsmiles(pattern):
                     skip = 0
                     # in principle each branch can contain any number of nested branches
                     # each branch is itself a recipe that has an anchor atom
-                    for ref_anchor, recipe in list(recipes.items())[len(branch_anchor):]:
+                    for ref_anchor, recipe in unit_recipes:
                         # starting from the first nested branch we have to do some
                         # math to find the anchor atom relative to the first branch
                         # we also skip the first residue in recipe, which is the
